@@ -267,19 +267,14 @@ func impl(ops []string) []string {
 
 // ---------------------------------------------------------------------------------------------- generators
 
-// small trees, decoded from an index (exhaustive when the index runs over the whole range):
-// round 0 holds the root (hash 1); rounds 1..3 hold 0..2 blocks each; each block's parent is one of the blocks of the
-// round before or missing; each block is notarized or not; each round object exists or not.
-func smallTree(idx uint64) (*gtree, uint64) {
+// small trees: round 0 holds the root (hash 1); rounds 1..3 hold 0..2 blocks each; each block's parent is one of the
+// blocks of the round before or missing from the store; each block is notarized or not; each round object exists or not.
+// `take(n)` supplies the choices: from a random index, or from the exhaustive enumeration (241 864 trees).
+func smallTreeFrom(take func(n int) int) *gtree {
 	t := &gtree{blocks: []gblk{{1, 0, 0}}}
 	t.rounds = append(t.rounds, []int{0, 1})
 	prev := []int{1}
 	next := 2
-	take := func(n int) int {
-		v := int(idx % uint64(n))
-		idx /= uint64(n)
-		return v
-	}
 	for rn := 1; rn <= 3; rn++ {
 		nb := take(3)
 		exists := take(2) == 1
@@ -303,7 +298,61 @@ func smallTree(idx uint64) (*gtree, uint64) {
 		}
 		prev = cur
 	}
-	return t, idx
+	return t
+}
+
+func smallTree(idx uint64) *gtree {
+	return smallTreeFrom(func(n int) int {
+		v := int(idx % uint64(n))
+		idx /= uint64(n)
+		return v
+	})
+}
+
+var (
+	allOnce  sync.Once
+	allSmall [][]byte // every choice sequence of smallTreeFrom
+)
+
+// enumerateSmall lists every choice sequence by replaying smallTreeFrom with a growing prefix (odometer over the
+// radices the function itself asks for).
+func enumerateSmall() {
+	var radices []int
+	cur := []byte{}
+	for {
+		// run with the current prefix, padding with zeros, recording radices
+		radices = radices[:0]
+		pos := 0
+		seq := []byte{}
+		smallTreeFrom(func(n int) int {
+			v := 0
+			if pos < len(cur) {
+				v = int(cur[pos])
+			}
+			pos++
+			radices = append(radices, n)
+			seq = append(seq, byte(v))
+			return v
+		})
+		allSmall = append(allSmall, append([]byte(nil), seq...))
+		// increment the odometer from the right
+		i := len(seq) - 1
+		for i >= 0 && int(seq[i])+1 >= radices[i] {
+			i--
+		}
+		if i < 0 {
+			return
+		}
+		seq[i]++
+		cur = seq[:i+1]
+	}
+}
+
+func nthSmallTree(i int) *gtree {
+	allOnce.Do(enumerateSmall)
+	seq := allSmall[i%len(allSmall)]
+	pos := 0
+	return smallTreeFrom(func(n int) int { v := int(seq[pos]); pos++; return v })
 }
 
 func queries(r *rand.Rand, t *gtree, all bool) []string {
@@ -438,20 +487,17 @@ func wild(r *rand.Rand, thorough bool) []string {
 	return append([]string{t.line()}, queries(r, t, false)...)
 }
 
-var exhaustiveTotal uint64 = func() uint64 {
-	// upper bound of the mixed-radix index of smallTree: per round 3*2*(3*2)^2 at most
-	return 86 * 86 * 86 * 4
-}()
+const smallTreeCount = 241864 // = len(allSmall), checked at start-up of a thorough run
 
 func gen(r *rand.Rand, thorough bool, i int) []string {
-	if thorough && i < 200000 {
-		// systematic sweep of the small-tree index space (stride chosen coprime to the radices)
-		t, _ := smallTree(uint64(i) * 7919)
+	if thorough && i < smallTreeCount {
+		// EXHAUSTIVE: every small tree, every (lfbr, r) pair
+		t := nthSmallTree(i)
 		return append([]string{t.line()}, queries(r, t, true)...)
 	}
 	switch x := r.Intn(10); {
 	case x < 4:
-		t, _ := smallTree(r.Uint64())
+		t := smallTree(r.Uint64())
 		return append([]string{t.line()}, queries(r, t, true)...)
 	case x < 7:
 		return history(r, thorough)
@@ -692,7 +738,11 @@ func main() {
 		ID: "C36", Model: "C36", Gen: gen, Impl: impl, Oracle: oracle,
 		Cases: func(th bool) int {
 			if th {
-				return 260000
+				allOnce.Do(enumerateSmall)
+				if len(allSmall) != smallTreeCount {
+					panic(fmt.Sprintf("small-tree enumeration has %d trees", len(allSmall)))
+				}
+				return smallTreeCount + 15000
 			}
 			return 2500
 		},
